@@ -125,9 +125,18 @@ def bounded_by_cap(b, loop):
     if k != "While":
         return False, None, "the main loop is neither `for` over a range nor `while` on a counter"
     c = peel(loop["c"])
-    if c.get("k") != "Bin" or c["op"] not in ("Lt", "Le", "Gt", "Ge", "Ne"):
+    neg = False
+    while c.get("k") == "Un" and c.get("op") == "Not":
+        neg = not neg
+        c = peel(c["e"])
+    if c.get("k") != "Bin" or c["op"] not in ("Lt", "Le", "Gt", "Ge", "Ne", "Eq"):
         return False, None, "the loop condition is not a comparison of a counter"
     l, r, op = peel(c["l"]), peel(c["r"]), c["op"]
+    if neg:
+        # `while !(a OP b)`: the complementary comparison (integers: total order)
+        op = {"Lt": "Ge", "Le": "Gt", "Gt": "Le", "Ge": "Lt", "Ne": "Eq", "Eq": "Ne"}[op]
+    if op == "Eq":
+        return False, None, "the loop continues while a counter *equals* something"
     if op in ("Gt", "Ge"):
         l, r, op = r, l, {"Gt": "Lt", "Ge": "Le"}[op]          # normalise to l < r / l <= r
     conts = [x for x in walk(loop["body"], into_closures=False) if x.get("k") == "Continue"]
